@@ -420,4 +420,15 @@ def _match_target(t, value, name):
                 v = _match_target(te, ve, name)
                 if v is not None:
                     return v
+    # a, b = X  with X a plain reference (name, attribute, element): a is X[0], b is X[1]
+    if isinstance(t, (ast.Tuple, ast.List)) and isinstance(value, (ast.Name, ast.Attribute, ast.Subscript)) \
+            and not any(isinstance(e, ast.Starred) for e in t.elts):
+        for k, te in enumerate(t.elts):
+            if isinstance(te, ast.Name) and te.id == name:
+                new = ast.Subscript(value=value, slice=ast.Constant(value=k), ctx=ast.Load())
+                ast.copy_location(new, value)
+                ast.copy_location(new.slice, value)
+                new.parent = getattr(value, "parent", None)
+                new._synthetic = True
+                return new
     return None
